@@ -12,7 +12,7 @@
 //                                solve with A2 (a separately assembled copy, a scaled / shifted / perturbed matrix on the same
 //                                pattern, a matrix with a different pattern) handed over as  form 0 scalar tuple, 1 separately
 //                                assembled scalar crs (rows listed backwards), 2 adapter::block_matrix, 3 block-valued crs.
-//                                kind 0: exact one-level preconditioner of A1, Krylov method run to convergence (<= n
+//                                kind 0: exact one-level preconditioner of A1, Krylov method run to convergence (<= min(n, 10)
 //                                iterations); kind 1: multilevel AMG of A1, <= 3 iterations.  Oracles, all in the ORIGINAL
 //                                SCALAR system of A2: reported residual == true residual; a converged solve satisfies
 //                                A2 x == f; the result equals that of the scalar solver with the same preconditioner (kind 0:
@@ -22,8 +22,8 @@
 //   s_complex3 kind A1 A2 w      the same for the complex adapter: solve(complex_matrix(A2), w, z) after a setup for A1
 //   t_mixed3 b wrap m upd        TEST (floating point): single precision (block) preconditioner under a double precision
 //                                (block) solver, entries NOT representable in float, the double matrix is given at solve time
-//                                (operator()(A, rhs, x), as in the mixed-precision tutorials); upd > 0: the solve-time matrix
-//                                has updated coefficients.  Reported < 1e-8 and TRUE residual (exact, from the doubles) <= 1e-8.
+//                                (operator()(A, rhs, x), as in the mixed-precision tutorials); upd 1: the solve-time matrix
+//                                has updated coefficients, upd 2: the same in double precision throughout (wrap 0).  Reported < 1e-8 and TRUE residual (exact, from the doubles) <= 1e-8.
 // Output line: `<iters> <reported residual>` | `exact` | `breakdown`; no Lean model is involved ("no_model").
 #include "gen_adapters.hpp"
 #include <amgcl/adapter/crs_tuple.hpp>
@@ -136,21 +136,27 @@ static std::tuple<size_t, Q> call_form(const Solver &solve, long form, const Mat
     if (form == 3) { amgcl::backend::crs<Blk> Ab(amgcl::adapter::block_matrix<Blk>(At)); return solve(Ab, F, X); }
     return solve(F, X);                 // form 4: the two-argument overload (internal, for A2 == A1)
 }
-template <class SP> static void it_prm3(SP &p, long kind, long n) { p.maxiter = kind == 0 ? (size_t)n : 3; p.tol = 0; p.abstol = 0; }
+// kind 0 runs to convergence (<= n iterations in exact arithmetic); the numbers grow with every iteration, so the run is
+// capped at 10 iterations (the generators keep n <= 9 for kind 0; the convergence oracle applies to n <= 10 only)
+static size_t maxiter3(long kind, long n) { return kind == 0 ? (size_t)std::min<long>(n, 10) : 3; }
+template <class SP> static void it_prm3(SP &p, long kind, long n) { p.maxiter = maxiter3(kind, n); p.tol = 0; p.abstol = 0; }
 
 struct Judge3 { const char *refname; bool cg; };
 // the oracles of the solve-time overload; everything is evaluated on the scalar system of A2
 static void judge3(Result &r, const Mat &A1, const Mat &A2, const std::vector<Q> &f, long kind, const Sol &s, const Sol *ref, const Sol *two, const Judge3 &j) {
     const bool same = same_matrix(A1, A2), scaled = is_scaled(A1, A2);
     r.tag(same ? "same" : scaled ? "scaled" : same_pattern(A1, A2) ? "same_pattern" : "diff_pattern");
-    if (ref && !same_sol(s, *ref)) r.fail(std::string("operator()(A, rhs, x): the result differs from ") + j.refname + " for the same solve-time matrix");
-    if (two && !same_sol(s, *two)) r.fail("operator()(A, rhs, x) with A equal to the setup matrix differs from operator()(rhs, x)");
+    auto differential = [&]() {
+        if (ref && !same_sol(s, *ref)) r.fail(std::string("operator()(A, rhs, x): the result differs from ") + j.refname + " for the same solve-time matrix");
+        if (two && !same_sol(s, *two)) r.fail("operator()(A, rhs, x) with A equal to the setup matrix differs from operator()(rhs, x)");
+    };
     if (s.threw) {
         r.out = "breakdown"; r.tag("breakdown");
         if (kind == 0 && j.cg) r.fail("CG with the exact preconditioner threw");
+        differential();
         return;
     }
-    size_t maxiter = kind == 0 ? (size_t)A2.n : 3;
+    size_t maxiter = maxiter3(kind, A2.n);
     std::vector<Q> rr = dmv(dense(A2), s.x); for (size_t i = 0; i < rr.size(); ++i) rr[i] = f[i] - rr[i];
     Q truth = nrm(rr) / nrm(f);
     if (s.res.v != truth.v) {
@@ -163,8 +169,9 @@ static void judge3(Result &r, const Mat &A1, const Mat &A2, const std::vector<Q>
     // (the norm of the exact type is rsqrt, resolution 2^-32: a reported 0 means |f - A x| < 2^-32, checked here without rsqrt)
     if (s.res == 0) { r.tag(zero ? "converged_exactly" : "converged"); Q lim = Q::frac(1, 1L << 32); if (!(dot(rr, rr) < lim * lim)) r.fail("operator()(A, rhs, x): converged solve (reported residual 0) does not satisfy A x = rhs (to 2^-32) for the matrix given at solve time"); }
     if (s.it > maxiter) r.fail("iters > maxiter");
-    if (kind == 0 && j.cg && s.res != 0 && is_spd(A1) && is_spd(A2)) r.fail("CG (exact arithmetic, SPD matrix, exact SPD preconditioner of the setup matrix) did not solve the solve-time system within n iterations");
+    if (kind == 0 && j.cg && A2.n <= 10 && s.res != 0 && is_spd(A1) && is_spd(A2)) r.fail("CG (exact arithmetic, SPD matrix, exact SPD preconditioner of the setup matrix) did not solve the solve-time system within n iterations");
     if (kind == 0 && scaled && !(s.it == 1 && zero)) r.fail("solve-time matrix c * (setup matrix) under the exact preconditioner: not solved in one iteration");
+    differential();
     r.out = (Line() << s.it << s.res).get();
     r.tag("it" + std::to_string(s.it));
 }
@@ -355,6 +362,7 @@ template <class Sv, class Prm> static Mixed mixed_run(const Prm &p, long m, int 
     Sv solve(std::tie(N, ptr, col, val), p);
     std::vector<double> x(N, 0.0);
     Mixed q; std::tie(q.it, q.res) = solve(std::tie(N, ptr2, col2, val2), rhs, x);
+    for (double v : x) if (!std::isfinite(v)) { q.truth = std::numeric_limits<double>::infinity(); return q; }     // (GMP traps on non-finite doubles)
     mpq_class rr2 = 0, ff2 = 0;       // true residual in exact rational arithmetic from the returned doubles
     for (long i = 0; i < N; ++i) { mpq_class s = 0; for (auto j = ptr2[i]; j < ptr2[i+1]; ++j) s += mpq_class(val2[j]) * mpq_class(x[col2[j]]); mpq_class e = mpq_class(rhs[i]) - s; rr2 += e * e; ff2 += mpq_class(rhs[i]) * mpq_class(rhs[i]); }
     q.truth = std::sqrt(mpq_class(rr2 / ff2).get_d());
@@ -541,9 +549,9 @@ static Result execute(const Toks &t) {
         ptrdiff_t nn = N; Sv solve(std::tie(nn, ptr, col, val), p);
         size_t it; double res; std::tie(it, res) = solve(f, x);
         // true residual in exact rational arithmetic from the returned doubles
-        mpq_class rr2 = 0, ff2 = 0;
-        for (long i = 0; i < N; ++i) { mpq_class s = 0; for (auto j = ptr[i]; j < ptr[i+1]; ++j) s += mpq_class(val[j]) * mpq_class(x[col[j]]); mpq_class e = mpq_class(f[i]) - s; rr2 += e * e; ff2 += mpq_class(f[i]) * mpq_class(f[i]); }
-        double truth = std::sqrt(mpq_class(rr2 / ff2).get_d());
+        mpq_class rr2 = 0, ff2 = 0; bool finite = true; for (double v : x) if (!std::isfinite(v)) finite = false;      // (GMP traps on non-finite doubles)
+        if (finite) for (long i = 0; i < N; ++i) { mpq_class s = 0; for (auto j = ptr[i]; j < ptr[i+1]; ++j) s += mpq_class(val[j]) * mpq_class(x[col[j]]); mpq_class e = mpq_class(f[i]) - s; rr2 += e * e; ff2 += mpq_class(f[i]) * mpq_class(f[i]); }
+        double truth = finite ? std::sqrt(mpq_class(rr2 / ff2).get_d()) : std::numeric_limits<double>::infinity();
         if (!(res < 1e-8)) r.fail("mixed precision: reported residual does not reach 1e-8");
         if (!(truth <= 1e-8 * 1.01)) r.fail("mixed precision: TRUE residual " + std::to_string(truth) + " does not reach 1e-8");
         if (it >= 100) r.fail("mixed precision: maxiter reached");
@@ -615,7 +623,7 @@ static void generate(Rng &rng, const Opts &o, std::vector<std::string> &lines) {
         // the solve-time-matrix overload: every wrapper, every family of A2 and every representation within 6 resp. 4 rounds
         { long ci = 0; for (auto &cb : combos) { for (long kind = 0; kind < 2; ++kind) put_block3_case(rng, o, lines, kind, cb[0], cb[1], (int)((k + ci + 3 * kind) % 6), (k + ci / 2 + kind) % 4); ++ci; } }
         for (long kind = 0; kind < 2; ++kind) for (int rep = 0; rep < 2; ++rep) {         // complex adapter, solve-time overload
-            long n = rng.range(2, o.thorough() ? 7 : 4);
+            long n = rng.range(2, o.thorough() && kind == 1 ? 7 : 4);      // kind 0 runs up to 2n exact BiCGStab iterations
             Mat Sm = gen_spd(rng, n, 2 * (int)rng.range(0, 1)); n = Sm.n;
             int fam = (int)((k + kind + 2 * rep) % 5);
             Mat S2 = fam == 4 ? gen_spd(rng, n, 2) : solve_time_matrix(rng, Sm, 1, fam, true); if (S2.n != n) S2 = solve_time_matrix(rng, Sm, 1, 4, true);
